@@ -235,7 +235,7 @@ def build_pair(cfg: dict, store: Store, resume: bool = False):
     import ssl
 
     c = tls.Context(is_client=True, cadata=P.ca_pem, server_name="localhost", alpn_protocols=alpn_c, cipher_suites=suites,
-                    verify_mode=ssl.CERT_NONE if cfg.get("client_cert_none") else None)
+                    verify_mode=ssl.CERT_NONE if cfg.get("client_cert_none") else (ssl.CERT_OPTIONAL if cfg.get("client_cert_optional") else None))
     c.handshake_extensions = [(tls.ExtensionType.QUIC_TRANSPORT_PARAMETERS, TP_CLIENT)]
     s = tls.Context(is_client=False, alpn_protocols=alpn_s, cipher_suites=suites, max_early_data=0xFFFFFFFF)
     s.handshake_extensions = [(tls.ExtensionType.QUIC_TRANSPORT_PARAMETERS, TP_SERVER)]
@@ -614,6 +614,9 @@ def rebind(msg: bytes, suite_name: str, psk: bytes) -> bytes:
 
 B_CERT_CASES = ["wrong-name", "expired", "not-yet", "self-signed", "untrusted-ca",
                 "untrusted-ca+root-in-chain", "untrusted-inter+root-in-chain", "untrusted-inter-in-chain"]
+# ... and a client with verify_mode CERT_OPTIONAL validates exactly like one with CERT_REQUIRED (for a TLS client the two
+# mean the same: the server always presents a certificate)
+B_CERT_OPTIONAL_CASES = [c + "+client-cert-optional" for c in B_CERT_CASES] + ["control-good+client-cert-optional"]
 B_SIG_CASES = ["cv-wrong-key", "cv-wrong-context", "cv-wrong-transcript", "empty-certificate-list-no-certificate-verify",
                # a client that switched chain / name validation off (verify_mode CERT_NONE, e.g. because it pins the
                # certificate itself) is still owed the proof of possession of the presented certificate's key
@@ -640,12 +643,16 @@ def b_run(case: str, kind: str, res, batch):
             return None
         resume = True
         res.count("b_tickets_issued")
-    if case in B_CERT_CASES:
-        cfg = dict(cfg, flavour=case)
     if case.endswith("+client-cert-none"):
         cfg = dict(cfg, client_cert_none=True)
         case = case[: -len("+client-cert-none")]
         res.count("b_client_cert_none_cases")
+    elif case.endswith("+client-cert-optional"):
+        cfg = dict(cfg, client_cert_optional=True)
+        case = case[: -len("+client-cert-optional")]
+        res.count("b_client_cert_optional_cases")
+    if case in B_CERT_CASES:
+        cfg = dict(cfg, flavour=case)
     cl, sv = build_pair(cfg, store, resume=resume)
     suite_name = None
     if resume:
@@ -772,8 +779,8 @@ def _claim_psk_without_secret(ctx, cipher_suite, input_buf, initial_buf, handsha
 
 def b_negauth_tls(batch, res):
     cases = batch.get("cases") or (
-        B_CERT_CASES + B_SIG_CASES + B_PSK_CASES
-        + ["control-good", "control-good+client-cert-none", "control-proxy-identity", "control-psk", "control-psk-rebind-same-secret", "control-psk-unknown-ticket"]
+        B_CERT_CASES + B_CERT_OPTIONAL_CASES[:-1] + B_SIG_CASES + B_PSK_CASES
+        + ["control-good", "control-good+client-cert-none", "control-good+client-cert-optional", "control-proxy-identity", "control-psk", "control-psk-rebind-same-secret", "control-psk-unknown-ticket"]
     )
     kinds = batch.get("kinds") or KEY_TYPES
     for kind in kinds:
